@@ -34,6 +34,7 @@ class Gen:
         self.next_dflt = 0
         self.pending_over = []  # (vid, depth) of defaulted variables: overwrite some unconditionally later
         self.dflt_vars = set()
+        self.acc = {}           # accessor spelling | kind of object it is applied to | read/write -> count
         self.stats = dict(depth=0, chain=0, inner_decl=0, dyn=0, nested_path=0, shadow=0, xconst=0, stmts=0, else_if_space=0, var_index=0, index_reassigned=0, dyn_read=0, defaults=0, default_overwritten=0)
 
     def visible(self):
@@ -97,9 +98,12 @@ class Gen:
                 e, ww = r.choice(wide)
                 return "sl %s %d %d" % (e, r.randint(0, ww - w), w)
             return "cu " + self.const(w)
-        op = r.choice(["not", "and", "or", "xor", "add", "add", "sl", "dyn"])
+        op = r.choice(["not", "and", "or", "xor", "add", "add", "sl", "dyn", "acc"])
         if op == "dyn":
             e = self.dynread_u(w) if w <= 8 else None
+            return e if e else self.uexpr(w, d - 1)
+        if op == "acc":
+            e = self.read_access(("u", w))
             return e if e else self.uexpr(w, d - 1)
         if op == "not":
             return "not " + self.uexpr(w, d - 1)
@@ -121,9 +125,12 @@ class Gen:
             c2 = r.random()
             if srcs and c2 < 0.5:
                 return r.choice(srcs)
-            if uw and c2 < 0.80:
+            if uw and c2 < 0.45:
                 e, w = r.choice(uw)
                 return "bit %s %d" % (e, r.randrange(w))
+            if uw and c2 < 0.80:
+                e = self.read_access("b")
+                if e: return e
             if uw and c2 < 0.92:
                 e, w = r.choice(uw)
                 iw = r.choice([1, 2, 3]); self.stats["dyn_read"] += 1
@@ -145,43 +152,149 @@ class Gen:
         return "%s %s %s" % (op, self.bexpr(d - 1), self.bexpr(d - 1))
 
     # ---- assignment targets
-    def path(self, w):
-        """returns (list of sel strings, kind of rhs, width of rhs)"""
+    # ---- accessor spellings (frontend/BitVector.h): all must mean the same (offset,width) / bit index
+    def static_spelling(self, pw, off, w):
+        c = ["call", "sel_slice", "sel_range", "sel_range_sz", "call_reduce"]
+        if w >= 1: c.append("sel_rangeincl")
+        if off + w == pw: c += ["sel_from", "upper", "upper_reduce", "sel_fromneg"]
+        if off == 0: c += ["lower", "lower_reduce"]
+        if off == 0 and w == pw: c.append("sel_all")
+        if off % w == 0: c += ["sel_symbol", "word"]
+        if off % w == 0 and pw % w == 0: c += ["part", "parts_idx", "parts_at"]
+        # rarely used spellings first so that every one is exercised
+        rare = [x for x in c if x not in ("call", "sel_slice", "sel_range", "sel_range_sz", "call_reduce", "sel_rangeincl")]
+        return self.rng.choice(rare) if rare and self.rng.random() < 0.6 else self.rng.choice(c)
+
+    def bit_spelling(self, pw, i):
+        c = ["index", "index_int", "index_neg", "at", "iter", "riter"]
+        if i == 0: c += ["lsb", "lsb", "front"]
+        if i == pw - 1: c += ["msb", "msb", "back"]
+        return self.rng.choice(c)
+
+    def count_acc(self, name, levels_before, side):
+        if not levels_before: kind = "vector"
+        else:
+            last = levels_before[-1][0]
+            kind = {"st": "static-slice", "ds": "dynamic-slice", "dp": "dynamic-part", }[last]
+            if len(levels_before) > 1: kind = "nested-" + kind
+        key = "%s|%s|%s" % (name, kind, side)
+        self.acc[key] = self.acc.get(key, 0) + 1
+
+    def gen_levels(self, w, side, nlevels=None, want=None):
+        """access path below a vector of width w: list of level tuples, (kind of result, width).
+        want = None: free; ('u', ww): must end as a UInt of width ww (ww <= w); 'b': must end as a Bit"""
         r = self.rng
-        sels = []
-        levels = r.choice([1, 1, 1, 2, 2, 3])
-        for lv in range(levels):
+        lv = []
+        n = nlevels if nlevels is not None else r.choice([1, 1, 2, 2, 2, 3])
+        minw = want[1] if isinstance(want, tuple) else 1
+        def static(ww=None, off=None):
+            nonlocal w
+            if ww is None:
+                ww = r.randint(minw, w)
+                # lsb()/msb() of sub-ranges that do NOT start at bit 0: prefer non-zero offsets
+                off = r.randint(0, w - ww) if r.random() < 0.3 or w == ww else r.randint(1, w - ww)
+            sp = self.static_spelling(w, off, ww)
+            self.count_acc(sp, lv, side)
+            lv.append(("st", sp, w, off, ww)); w = ww
+        for k in range(n):
+            last = (k == n - 1)
             c = r.random()
+            if last and want == "b":
+                c = 0.5 if r.random() < 0.7 else 0.8          # static bit / dynamic bit
+            elif last and isinstance(want, tuple):
+                if w == want[1] and lv and r.random() < 0.5:
+                    break
+                static(want[1], r.randint(0, w - want[1])); break
+            elif want is not None and not last:
+                c = r.choice([0.1, 0.1, 0.6, 0.9])               # prefix levels keep a vector
             if c < 0.40:
-                ww = r.randint(1, w); off = r.randint(0, w - ww)
-                sels.append("st %d %d" % (off, ww)); w = ww
+                static()
             elif c < 0.55:
-                sels.append("sb %d" % r.randrange(w))
-                return sels, "b", 1
+                i = r.randrange(w)
+                if r.random() < 0.5: i = r.choice([0, w - 1])
+                sp = self.bit_spelling(w, i)
+                self.count_acc(sp, lv, side)
+                lv.append(("sb", sp, w, i))
+                return lv, "b", 1
             elif c < 0.75:
                 iw = [i for i in (1, 2, 3) if (1 << i) <= w]
-                if not iw:
-                    ww = r.randint(1, w); off = r.randint(0, w - ww)
-                    sels.append("st %d %d" % (off, ww)); w = ww
+                if not iw or (isinstance(want, tuple) and min(w, 4) < minw):
+                    static()
                 else:
-                    i = r.choice(iw); ww = r.randint(1, min(w, 4))
-                    sels.append("ds %d %d %s" % (i, ww, self.idxexpr(i))); w = ww
+                    i = r.choice(iw); ww = r.randint(minw, min(w, 4)) if minw <= min(w, 4) else minw
+                    self.count_acc("dyn_slice", lv, side)
+                    lv.append(("ds", i, ww, self.idxexpr(i))); w = ww
                     self.stats["dyn"] += 1
-            elif c < 0.87:
+            elif c < 0.87 and (want is None or want == "b") :
                 i = r.choice([1, 2, 3])
-                sels.append("db %d %d %s" % (i, w, self.idxexpr(i)))
+                self.count_acc("dyn_index", lv, side)
+                lv.append(("db", i, w, self.idxexpr(i)))
                 self.stats["dyn"] += 1
-                return sels, "b", 1
+                return lv, "b", 1
             else:
-                parts = r.choice([p for p in (1, 2, 3, 4) if w % p == 0])   # BitWidth division requires divisibility
+                ps = [p for p in (1, 2, 3, 4) if w % p == 0 and w // p >= minw]
+                if not ps:
+                    static(); continue
+                parts = r.choice(ps)
                 i = r.choice([1, 2])
-                sels.append("dp %d %d %s" % (parts, w, self.idxexpr(i))); w = w // parts
+                sp = r.choice(["part", "parts_idx", "parts_at"])
+                self.count_acc("dyn_" + sp, lv, side)
+                lv.append(("dp", sp, parts, w, self.idxexpr(i))); w = w // parts
                 self.stats["dyn"] += 1
             if w < 1:
                 break
-        if len(sels) > 1:
+        if want == "b":
+            i = r.choice([0, w - 1, r.randrange(w)])
+            sp = self.bit_spelling(w, i)
+            self.count_acc(sp, lv, side)
+            lv.append(("sb", sp, w, i))
+            return lv, "b", 1
+        if isinstance(want, tuple) and w != want[1]:
+            static(want[1], r.randint(0, w - want[1]))
+        return lv, "u", w
+
+    @staticmethod
+    def levels_to_sels(lv):
+        out = []
+        for l in lv:
+            if l[0] == "st": out.append("sx %s %d %d %d" % (l[1], l[2], l[3], l[4]))
+            elif l[0] == "sb": out.append("bx %s %d %d" % (l[1], l[2], l[3]))
+            elif l[0] == "ds": out.append("ds %d %d %s" % (l[1], l[2], l[3]))
+            elif l[0] == "db": out.append("db %d %d %s" % (l[1], l[2], l[3]))
+            elif l[0] == "dp": out.append("dpx %s %d %d %s" % (l[1], l[2], l[3], l[4]))
+        return out
+
+    @staticmethod
+    def levels_to_expr(base, lv):
+        e = base
+        for l in lv:
+            if l[0] == "st": e = "slx %s %d %s %d %d" % (l[1], l[2], e, l[3], l[4])
+            elif l[0] == "sb": e = "bitx %s %d %s %d" % (l[1], l[2], e, l[3])
+            elif l[0] == "ds": e = "dsl %d %d %s %s" % (l[1], l[2], e, l[3])
+            elif l[0] == "db": e = "dbit %d %d %s %s" % (l[1], l[2], e, l[3])
+            elif l[0] == "dp": e = "dpartx %s %d %d %s %s" % (l[1], l[2], l[3], e, l[4])
+        return e
+
+    def path(self, w):
+        """assignment target below a variable of width w: (list of sel strings, kind of rhs, width of rhs)"""
+        lv, k, ww = self.gen_levels(w, "write")
+        if len(lv) > 1:
             self.stats["nested_path"] += 1
-        return sels, "u", w
+        return self.levels_to_sels(lv), k, ww
+
+    def read_access(self, want):
+        """read through a chain of accessors applied to a variable / pin (aliases of aliases), or None"""
+        r = self.rng
+        minw = want[1] if isinstance(want, tuple) else 1
+        bases = [("in %d" % i, pw) for i, (k, pw) in enumerate(self.pins) if k == "u" and pw >= minw]
+        bases += [("s %d" % vid, vw) for (vid, k, vw) in self.visible() if k == "u" and vw >= minw] * 2
+        if not bases:
+            return None
+        e, pw = r.choice(bases)
+        lv, k, ww = self.gen_levels(pw, "read", nlevels=r.choice([1, 2, 2, 3]), want=want)
+        if any(l[0] in ("ds", "db", "dp") for l in lv):
+            self.stats["dyn_read"] += 1
+        return self.levels_to_expr(e, lv)
 
     # ---- statements: nested python lists  ["D", ...] / ["IF", [(cond|None, body)...]]
     def decl(self, depth):
@@ -758,6 +871,7 @@ def main():
 
     progs = load_corpus()
     asts = {}
+    acc_total = {}
     gstats = dict(inner_decl=0, dyn=0, nested_path=0, shadow=0, xconst=0, else_if_space=0, var_index=0, index_reassigned=0, dyn_read=0, defaults=0, default_overwritten=0)
     for i in range(nprog):
         budget = rng.choice([6, 10, 14, 20, 28] if quick else [8, 14, 22, 32, 45])
@@ -770,6 +884,8 @@ def main():
         asts[pid] = (g.pins, body, vecs)
         for k in gstats:
             gstats[k] += 1 if g.stats[k] else 0
+        for k, v in g.acc.items():
+            acc_total[k] = acc_total.get(k, 0) + v
 
     t0 = time.time()
     res, errs = run_all(harness, driver if driver else None, progs, "main", timeout=1500 if not quick else 600)
@@ -846,6 +962,7 @@ def main():
         cases_oracle_defined=oracle_def,
         cases_with_undefined_final_bits=xvals,
         reads_live=live_reads, reads_dead=dead_reads,
+        accessor_x_alias_kind_x_side=dict(sorted(acc_total.items())),
         default_nodes_keeping_constant=ndef_loopy, default_nodes_showing_final_value=ndef_final)
     rep.cov["run_seconds"] = round(t_run, 1)
     rep.cov["level_note"] = ("proof: elab_correct & co for all programs/inputs (default node outputs are free inputs of the theorem); "
